@@ -55,6 +55,23 @@ CHECKS = {
         design='3 (C05)',
         note='one injected failure per victim (deviation bound 1); failures '
              'of the cleanup ops of the abort itself are outside the oracle'),
+    'C09': dict(
+        technique='exhaustive enumeration of (history, data-file image, '
+                  'index version / truncation / leftover files) triples on '
+                  'the real FileStorage, differential against the index-less '
+                  'open',
+        text='For every history (depth 4 quick / 5 thorough, incl. pack and '
+             'reopen) every data-file image of the last step is opened with '
+             'no index, the current index, every index version ever written '
+             'or that a close after any earlier step would have written, '
+             'every byte-prefix truncation of each version and with junk '
+             '.tmp/.lock/.pack/.old/.index_tmp files; each open must answer '
+             'the battery like the index-less open. Every image is also '
+             'opened read-only: files byte-identical afterwards, every write '
+             'entry point raises ReadOnlyError, same battery.',
+        design='4 (C09)',
+        note='bit damage inside an index is outside the property; one known '
+             'finding (stale pre-pack index passing the sanity heuristic)'),
     'C19': dict(
         technique='explicit-state exploration of the real fsIndex over a '
                   '12-key alphabet, every query compared with a sorted dict',
